@@ -517,6 +517,8 @@ func main() {
 			rn.streamRoots(g)
 		case "specials":
 			rn.streamSpecials(g)
+		case "translog":
+			rn.streamTransLog(g)
 		case "traps":
 			rn.streamTraps(g, opList)
 		case "errdec":
